@@ -206,9 +206,10 @@ fn open_report_step(m: &M, o: &O, finished: bool) -> Vec<M> {
     if finished {
         // an 'open' report with nothing left to fill: the order is finished
         return match m.held() {
-            // report older than (or as old as) held data can only occur in inconsistent
-            // histories: honouring or ignoring it are both accepted
-            Some(c) if o.t <= c.t => vec![M::Untracked, m.clone()],
+            // a report strictly older than the held data is stale: honouring or ignoring it are both
+            // accepted. A report as recent as the held data (same exchange timestamp, e.g. two fills
+            // inside one millisecond) is not stale: the order is finished
+            Some(c) if o.t < c.t => vec![M::Untracked, m.clone()],
             _ => vec![M::Untracked],
         };
     }
